@@ -155,6 +155,24 @@ def run(ck: vlib.Check):
             for mode in range(4):
                 for _ in range(reps if mode == 3 else 1):
                     cases.append((name, sentinel_payload(rng, size, mode)))
+    # sparse records: all-zero elements in front of, between and behind non-zero ones (a decoder that stops at the first
+    # empty element, or pads with one shared object, reads the wrong thing from here on); every record-array section
+    for name, rec, per in (("TRIG", 2400, None), ("MRGN", 20, None), ("UPRP", 20, 64)):
+        n = per or 6
+        base = bytearray(sentinel_payload(rng, rec * n, 0))
+        for holes in ([0], [1], [0, 1, 2], [n - 2], list(range(0, n - 1)), [k for k in range(n) if k % 2 == 0]):
+            b = bytearray(base)
+            for h in holes:
+                b[rec * h: rec * (h + 1)] = bytes(rec)
+            cases.append((name, bytes(b)))
+    # ... and inside one trigger: empty condition / action slots in front of and between used ones, only the last slot used
+    for holes_c, holes_a in (([0], [0]), ([1, 2], [5]), (list(range(15)), list(range(63))), ([k for k in range(16) if k % 2], [k for k in range(64) if k % 3])):
+        b = bytearray(sentinel_payload(rng, 2400, 1))
+        for h in holes_c:
+            b[20 * h: 20 * h + 20] = bytes(20)
+        for h in holes_a:
+            b[320 + 32 * h: 320 + 32 * h + 32] = bytes(32)
+        cases.append(("TRIG", bytes(b)))
     for w, name in ((2, "STR "), (4, "STRx")):
         for _ in range(30 * reps):
             cases.append((name, S.gen_str_payload(rng, w)))
